@@ -155,7 +155,7 @@ func execC36(t *testing.T, c C36Case) *Verdict {
 	// (2) The same workspace compiled repeatedly: unsimulated reference first.
 	var ref expOutcome
 	if msg := quiesced(func() {
-		ref = newExpEnv(&simOpener{files: c.WL.sources(), transient: map[string]bool{}}, c.Roots, 1).compile(context.Background())
+		ref = newExpEnv(&simOpener{files: c.WL.userSources(), transient: map[string]bool{}}, c.Roots, 1).compile(context.Background())
 	}); msg != "" {
 		return viol("C36/unsimulated-run-hangs", "%s", msg)
 	}
@@ -168,7 +168,7 @@ func execC36(t *testing.T, c C36Case) *Verdict {
 		for i, r := range c.Runs {
 			sim.Yield("h.op", "")
 			if env == nil || !r.Warm {
-				env = newExpEnv(&simOpener{files: c.WL.sources(), transient: map[string]bool{}}, c.Roots, r.Par)
+				env = newExpEnv(&simOpener{files: c.WL.userSources(), transient: map[string]bool{}}, c.Roots, r.Par)
 			}
 			got := env.compile(context.Background())
 			switch {
@@ -180,7 +180,7 @@ func execC36(t *testing.T, c C36Case) *Verdict {
 				v = viol("C36/diagnostics-order-differs", "run %d (par %d, warm %v) reports the same diagnostics in a different order:\n%s\nvs\n%s", i, r.Par, r.Warm, got.rendered, ref.rendered)
 			}
 			if v != nil {
-				if textHasImportCycle(c.WL.sources(), c.Roots) {
+				if textHasImportCycle(c.WL.userSources(), c.Roots) {
 					v.Class += "-with-import-cycle"
 				}
 				return
